@@ -125,6 +125,14 @@ def main(tier, seed):
                 continue        # quick: a seeded quarter of the big decorator/with block, everything else in full
             taken[0] += 1
             yield c
+            if tier == 'thorough' or derive(seed, 'links', i) % 5 == 0:
+                # the same case with marks that are many-to-many links between existing rows: the body saves no
+                # object, only link-table statements (which rely on flush() for their transaction)
+                c2 = dict(c)
+                c2['marks'] = 'links'
+                c2['seed'] = derive(seed, 'c18l', i)
+                taken[0] += 1
+                yield c2
 
     with Pool() as pool:
         done = 0
